@@ -207,10 +207,11 @@ def finite(v):
 
 def out_of_range(X, Y, q):
     """No nearest point at a distance the code can hold: a coordinate of the query or of the polyline is inf / NaN, or the
-    EXACT squared distance from the query to every segment that proj_polyligne does not skip is >= 2**1024 (proj_segment
-    computes squared distances in doubles: they are all inf / NaN there). Decided on the input alone, in exact rational
-    arithmetic. On such an input the property does not constrain the code (it raises UnboundLocalError: no distance is
-    < the sentinel 1e400 = +inf); the correspondence with the model is still checked bit for bit."""
+    EXACT squared distance from the query to every segment that proj_polyligne does not skip (to its first vertex when it
+    skips them all) is >= 2**1024 (proj_segment / proj_polyligne compute squared distances in doubles: they are all inf /
+    NaN there). Decided on the input alone, in exact rational arithmetic. On such an input the property does not constrain
+    the code (no distance is < the sentinel 1e400 = +inf: it answers from the first vertex with the distance inf / NaN, or
+    raises OverflowError at `(x - xproj) ** 2` on Python floats); the correspondence with the model is still checked."""
     vals = [float(v) for v in list(X) + list(Y) + list(q)]
     if not all(finite(v) for v in vals):
         return True
@@ -219,7 +220,9 @@ def out_of_range(X, Y, q):
     qx, qy = fr(float(q[0])), fr(float(q[1]))
     live = [s for j, s in enumerate(segments(X, Y))
             if not (abs(float(X[j]) - float(X[j + 1])) + abs(float(Y[j]) - float(Y[j + 1])) < 1e-16)]
-    return bool(live) and all(seg_d2(qx, qy, *s) >= DMAX2 for s in live)
+    if not live:
+        return len(X) >= 1 and len(Y) >= 1 and (qx - fr(float(X[0]))) ** 2 + (qy - fr(float(Y[0]))) ** 2 >= DMAX2
+    return all(seg_d2(qx, qy, *s) >= DMAX2 for s in live)
 
 
 def zf(v):
@@ -272,15 +275,18 @@ class P(Prop):
         (M, "TV.C20.proj_dist_consistent", "the returned distance is the distance from the query to the returned point (every segment on which it returns)"),
         (M, "TV.C20.proj_segment_min_partial", "non-vertical segment: proj_segment returns and its distance is <= the distance to every point of the segment"),
         (M, "TV.C20.vertical_as_coded", "vertical segment, as coded: ZeroDivisionError or the nearer END point (never the foot)"),
-        (M, "TV.C20.proj_polyline_min_partial", "proj_polyligne: index of a non-skipped segment carrying the point, d = distance to it, d <= distance to every point of every non-vertical non-skipped segment and to the end points of all non-skipped ones"),
-        (M, "TV.C20.proj_polyline_total", "no vertical non-skipped segment and at least one non-skipped segment: proj_polyligne returns (no exception)"),
+        (M, "TV.C20.proj_polyline_min_partial", "proj_polyligne on a polyline with a kept segment: index of a non-skipped segment carrying the point, d = distance to it, d <= distance to every point of every non-vertical non-skipped segment and to the end points of all non-skipped ones"),
+        (M, "TV.C20.proj_polyline_total", "no vertical non-skipped segment and at least one vertex: proj_polyligne returns (no exception), whether or not a segment is kept"),
+        (M, "TV.C20.proj_polyline_all_skipped", "every segment skipped (all vertices coincide up to 1e-16 per segment; a single vertex): returns the FIRST vertex, index 0, d = distance to it; every point of the (t+1)-th segment is within (t+1) * 1e-16 of it, so d is the minimum distance up to that bound (the case repaired by fix 563eeba)"),
+        (M, "TV.C20.proj_polyline_on", "ANY polyline, kept segment or not: vertex i exists, d = distance to the returned point, which lies on segment i when the polyline has >= 2 vertices (is the vertex when it has one)"),
+        (M, "TV.C20.projPolyligne_vs_old", "the repair is conservative: wherever the pre-fix function (projPolyligneOld) returned, the current one returns the same; where it raised UnboundLocalError on a non-empty polyline the current one returns the first vertex"),
         (M, "TV.C20.projOnTrack_spec", "__projOnTrack / mapOnTrack(coord) = proj_polyligne reordered as (point, distance, index)"),
         (M, "TV.C20.mapOnTrack_rows", "mapOnTrack(track): one row per query, in order, row j = projection of query j"),
         (M, "TV.C20.proj_segment_min_fails_on_vertical", "refutation of the full statement: segment (0,0)-(0,8), query (3,4), over every ordered field"),
         (M, "TV.C20.proj_segment_nearest_partial", "non-vertical segment (oblique / horizontal, any direction): returns a point ON the segment, d = distance to it, d <= distance to every point of the segment (the three clauses together)"),
         (M, "TV.C20.proj_segment_horizontal", "horizontal segment, exact arithmetic: returned ordinate = the segment's; query abscissa between the ends -> the foot (x, y1) at distance |y - y1|; minimal in every case"),
         (M, "TV.C20.proj_polyline_vertices", "skipped segments being true zero-length ones: d <= distance to EVERY vertex of the polyline (those of skipped segments included)"),
-        (M, "TV.C20.proj_polyline_nearest_partial", "polyline with no kept vertical segment, skipped ones zero-length, one kept: returns (d, p, i) with p on segment i, d = |q - p|, d <= distance to every point of every segment (skipped included)"),
+        (M, "TV.C20.proj_polyline_nearest_partial", "polyline of >= 2 vertices with no kept vertical segment, skipped ones zero-length (NO segment need be kept: all vertices may coincide): returns (d, p, i) with p on segment i, d = |q - p|, d <= distance to every point of every segment (skipped included)"),
         (M, "TV.C20.projSegmentG_lists", "proj_segment on a list / tuple of Python numbers is the kernel projSegment of the theorems"),
         (M, "TV.C20.projSegmentG_numpy_nonvertical", "proj_segment on numpy scalars (-c / b never raises) equals the kernel on every non-vertical segment"),
         (M, "TV.C20.projPolyligneXY_spec", "proj_polyligne(Xp, Yp, ..) with len(Yp) >= len(Xp) is the kernel on zip(Xp, Yp) (lists; numpy arrays when no kept segment is vertical)"),
@@ -296,8 +302,8 @@ class P(Prop):
         (M, "TV.C20.proj_polyline_skipped_run", "a RUN of consecutive skipped segments of non-zero length going forward from an end of a kept segment: d <= distance from the query to every point of the (t+1)-th segment of the run + (t+1) * 1e-16"),
         (M, "TV.C20.proj_polyline_skipped_run_back", "the same for a run going backward to an end of a kept segment: every point of segment w + t of the run is covered up to (r - t) * 1e-16; with the forward form and proj_polyline_min_partial every point of a polyline that has a kept segment is covered"),
         (M, "TV.C20.vertical_zerodiv_iff", "vertical segment: ZeroDivisionError exactly when the query has the segment's abscissa and a = y2 - y1 lies between y1 and y2 (the harness predicate zerodiv_vertical); an end point otherwise"),
-        (M, "TV.C20.proj_polyline_vertical_case", "any polyline, kept vertical segments included: segment i is kept and EITHER exactly vertical, the returned point being one of its END points, OR non-vertical with the answer right once the kept vertical segments are left out (on segment i, d = |q - p|, d <= every point of every kept non-vertical segment): the model's side of the class vertical-segment"),
-        (M, "TV.C20.mapOnTrackT_nearest_partial", "the property at full strength through the track form, tracks with any state: reference without kept vertical segment, at least one query -> returns; for every query the output's point lies on segment edge[j], dist[j] = distance to it, minimal over every point of every segment"),
+        (M, "TV.C20.proj_polyline_vertical_case", "any polyline with a kept segment, kept vertical segments included: segment i is kept and EITHER exactly vertical, the returned point being one of its END points, OR non-vertical with the answer right once the kept vertical segments are left out (on segment i, d = |q - p|, d <= every point of every kept non-vertical segment): the model's side of the class vertical-segment"),
+        (M, "TV.C20.mapOnTrackT_nearest_partial", "the property at full strength through the track form, tracks with any state: reference of >= 2 positions (all may coincide) without kept vertical segment, at least one query -> returns; for every query the output's point lies on segment edge[j], dist[j] = distance to it, minimal over every point of every segment"),
     ]
     partial = ["proj_segment_min_partial / proj_segment_nearest_partial / proj_polyline_min_partial / proj_polyline_nearest_partial: the property is proved at full "
                "strength (point on the carrying segment, index, d = |q - p|, d minimal over every point of every segment, skipped zero-length segments included) "
@@ -305,13 +311,13 @@ class P(Prop):
                "proj_segment_min_fails_on_vertical, vertical_as_coded, vertical_zerodiv_iff): there only the end points are covered; proj_polyline_vertical_case states what "
                "an answer on a polyline WITH kept vertical segments still guarantees (reported segment vertical -> one of its end points; else right w.r.t. the non-vertical ones). A skipped segment of non-zero length < 1e-16 is "
                "covered up to 1e-16 when it touches a kept segment (proj_polyline_skipped_partial), a run of k consecutive skipped segments from a kept end up to "
-               "k * 1e-16 (proj_polyline_skipped_run, proj_polyline_skipped_run_back: every maximal run touches a kept segment unless all segments are skipped). mapOnTrackT_nearest_partial carries the same statement through the track form (track objects with features / time stamps, "
+               "k * 1e-16 (proj_polyline_skipped_run, proj_polyline_skipped_run_back: every maximal run touches a kept segment unless all segments are skipped — then proj_polyline_all_skipped: the first vertex is returned, and the polyline is that point up to (number of segments) * 1e-16). mapOnTrackT_nearest_partial carries the same statement through the track form (track objects with features / time stamps, "
                "chained calls by mapChain_calls). Exact arithmetic: IEEE rounding (D17, horizontal segments) is outside the theorems and sampled by the transfer check; "
                "the numpy form on a vertical segment (inf / nan instead of ZeroDivisionError) is IEEE-only and checked by correspondence"]
     open_statements = ["proj_segment_min (all orientations, vertical included): FALSE of the current code (D16), kept as a comment in Props/C20.lean with its refutation"]
     modelled = ("util/geometry.py cartesienne, projection_droite (b == 0 special case as coded), proj_segment (segment given as list / tuple / numpy array: "
                 "-c / b raises or not), proj_polyligne on its two sequences (lists / tuples / numpy arrays, range(len(Xp) - 1), IndexError on a shorter Yp, "
-                "extra ordinates ignored, near-zero-length segments skipped, strict < minimum, UnboundLocalError); core/track.py Track.getX() / getY() on 3D "
+                "extra ordinates ignored, initial answer Xp[0], Yp[0], 0 (IndexError on an empty sequence), near-zero-length segments skipped, strict < minimum, distance to the first vertex when nothing was kept with `** 2` raising OverflowError on Python floats (the code since fix 563eeba)); core/track.py Track.getX() / getY() on 3D "
                 "positions (ENU / Geo / ECEF: only getX, getY are read); algo/mapping.py __projOnTrack (ENUCoords(xproj, yproj, 0), altitudes never read), "
                 "mapOnTrack with its dispatch on the first argument (coordinate / track of queries, dist and edge columns); the Track branch on track OBJECTS "
                 "(Model/ProjTrack.lean): output = Track(), addObs(Obs(proj[0])) with the default time stamp, createAnalyticalFeature('dist' / 'edge', list) through "
@@ -332,11 +338,13 @@ class P(Prop):
             "chained (the output track of call k, which carries the dist / edge of call k, is the track of queries of call k + 1, on the same / a shifted / "
             "another reference), one case in twenty passes the reference track object itself as track of queries, one in a hundred an empty track; every "
             "call is judged on the queries it was given (read from the track of queries just before the call). Track objects are never recycled within a process (no identity reuse). "
-            "non-trivial = the polyline has at least one segment of non-zero length. Outside the property's domain (an error is accepted there): "
-            "proj_segment on a zero-length segment, a polyline all of whose vertices coincide (up to the 1e-16 under which proj_polyligne skips a segment), "
+            "non-trivial = in the domain. A polyline (>= 2 vertices) ALL of whose vertices coincide, exactly or up to the 1e-16 under which proj_polyligne skips a segment, is IN the domain since fix 563eeba "
+            "(judged like any other: point on segment 0, d = distance to it = minimum distance; about 1 random polyline in 25 is one, on every stream and entry point, plus 1 sentinel case in 5). "
+            "Outside the property's domain (an error is accepted there): "
+            "proj_segment on a zero-length segment, "
             "a Yp shorter than Xp, a track of queries without observation, and an input whose distances are all outside the double range (a non-finite coordinate, or the exact squared "
-            "distance from the query to every non-skipped segment >= 2**1024: proj_polyligne then keeps nothing against its sentinel 1e400 and raises "
-            "UnboundLocalError). Sentinel stream (1 case in 41, appended): proj_polyligne / its two-sequence forms with a query coordinate inf / -inf / "
+            "distance from the query to every non-skipped segment — to the first vertex when all are skipped — >= 2**1024: proj_polyligne then keeps nothing against its sentinel 1e400 and answers from "
+            "the first vertex with distance inf / NaN, or raises OverflowError at `** 2` on Python floats). Sentinel stream (1 case in 41, appended): proj_polyligne / its two-sequence forms with a query coordinate inf / -inf / "
             "nan / +-1e200 / +-1e308 / +-max double, or vertices at +-1e308, kept only when out of range in that exact sense; checked against the "
             "sentinel-faithful model bit for bit, not constrained by the oracle. Failing answers are excused only inside the listed classes: vertical-segment (D16) and horizontal-segment-fp (D17, also segments "
             "horizontal up to 64 ulps, and — its general form — any segment and query for which the exact foot lies on the segment while the foot computed in doubles "
@@ -347,9 +355,9 @@ class P(Prop):
             "segments); an exception raised while such a polyline is projected on belongs to the class too (proj_segment is called on every kept segment "
             "for every query). An index outside 0..n-2, and any failure on a polyline without kept vertical segment, are reported. Also in that class: "
             "segments vertical up to rounding, where the foot built through (0, -c / b) loses its ordinate (near-vertical finding, recognised by check_fragile).")
-    trusted = ["math.sqrt / Float.sqrt correctly rounded; the sentinel 1e400 is the double +inf (driver: 1.0 / 0.0), compared `dist < inf` as in the code "
+    trusted = ["math.sqrt / Float.sqrt correctly rounded; `v ** 2` is v * v (libm pow(v, 2.0) up to its rounding) and raises OverflowError exactly when v is a finite Python float with an infinite square; the sentinel 1e400 is the double +inf (driver: 1.0 / 0.0), compared `dist < inf` / `distmin == inf` as in the code "
                "(sentinel-faithful forms projPolyligneS / projPolyligneXYS, tied exactly by tie_proj_polyligne_exact); the theorems of Props/C20 are about the "
-               "'no current minimum' forms, equal to them whenever every distance met is < inf (Lemmas/ProjSentinel.lean)"]
+               "'no current minimum' forms, equal to them whenever every distance met is < inf and no square overflows (Lemmas/ProjSentinel.lean)"]
 
     def setup(self):
         from tracklib.util import geometry
@@ -398,7 +406,8 @@ class P(Prop):
         for k in range(n):
             out.append(self.random_case(rng, streams[k % len(streams)]))
         # the sentinel stream (appended: the cases above are unchanged for a given seed): proj_polyligne on inputs whose
-        # distances are all inf / NaN, where `dist < distmin` never holds against the sentinel 1e400 (UnboundLocalError)
+        # distances are all inf / NaN, where `dist < distmin` never holds against the sentinel 1e400 (the answer then comes from
+        # the lines after the loop: the first vertex, distance inf / NaN, or OverflowError at `** 2` on Python floats)
         for k in range(n // 40):
             out.append(self.nonfinite_case(rng))
         return out
@@ -464,6 +473,9 @@ class P(Prop):
         return (p[0] + 1.0, p[1] + 2.0) if stream == "lattice" else (self.rnd(p[0] + 0.001, stream), self.rnd(p[1] + 0.002, stream))
 
     def rand_query(self, rng, stream, pts):
+        if len(pts) >= 2 and all(abs(p[0] - pts[0][0]) + abs(p[1] - pts[0][1]) < 1e-15 for p in pts) and rng.random() < 0.7:
+            o = self.rand_offset(rng, stream)        # a point-like polyline: the constructions below all give the point itself
+            return [self.rnd(pts[0][0] + o[0], stream), self.rnd(pts[0][1] + o[1], stream)]
         i = rng.randrange(len(pts) - 1)
         (x1, y1), (x2, y2) = pts[i], pts[i + 1]
         ux, uy = x2 - x1, y2 - y1
@@ -528,8 +540,21 @@ class P(Prop):
         pts = [self.rand_xy(rng, stream)]
         while len(pts) < n:
             pts.append(self.step(rng, stream, pts))
-        if all(p == pts[0] for p in pts) and rng.random() < 0.9:
-            pts[-1] = (self.rnd(pts[0][0] + 2.0e-3, stream), self.rnd(pts[0][1] + 1.0e-3, stream)) if stream != "lattice" else (pts[0][0] + 2.0, pts[0][1] + 1.0)   # all-degenerate polylines kept rare (outside the domain)
+        return pts
+
+    def rand_point_polyline(self, rng, stream, n):
+        """a polyline all of whose segments are skipped by proj_polyligne: n coinciding vertices (exactly, or — nearaxis stream /
+        one in three elsewhere but on the lattice — up to steps of 1e-17, below the 1e-16 threshold). In the domain since fix 563eeba."""
+        p = self.rand_xy(rng, stream)
+        pts = [p]
+        tiny = stream == "nearaxis" or (stream != "lattice" and rng.random() < 0.33)
+        while len(pts) < n:
+            q = pts[-1]
+            if tiny and rng.random() < 0.6:
+                q = (q[0] + rng.choice([-1, 0, 1]) * 1e-17, q[1] + rng.choice([-1, 0, 1]) * 1e-17)
+                if abs(pts[-1][0] - q[0]) + abs(pts[-1][1] - q[1]) >= 1e-16:
+                    q = pts[-1]
+            pts.append(q)
         return pts
 
     def random_case(self, rng, stream):
@@ -537,6 +562,9 @@ class P(Prop):
         r = rng.random()
         n = 2 if kind == "seg" else (rng.randint(300, 1200) if r < 0.0008 else rng.randint(31, 120) if r < 0.0125 else rng.randint(6, 30) if r < 0.125 else rng.randint(2, 5))
         pts = self.rand_points(rng, stream, n)
+        if kind != "seg" and rng.random() < 0.04:
+            pts = self.rand_point_polyline(rng, stream, min(n, rng.choice([2, 2, 3, 5, 9])))      # every segment skipped: the polyline is a point
+            n = len(pts)
         X, Y = [p[0] for p in pts], [p[1] for p in pts]
         if kind in ("seg", "poly", "polyxy"):
             conts = ["list", "tuple", "npf"] + (["npi", "int"] if stream == "lattice" else [])
@@ -588,8 +616,10 @@ class P(Prop):
                 which = rng.choice([(0,), (1,), (0, 1)])
                 for j in which:
                     q[j] = rng.choice(B)
+            if how != "vhuge" and rng.random() < 0.2:
+                pts = [pts[0]] * n                       # a point-like polyline: the lines after the loop alone produce the answer
             X, Y = [p[0] for p in pts], [p[1] for p in pts]
-            if any(pts[j] != pts[j + 1] for j in range(n - 1)) and out_of_range(X, Y, q):
+            if out_of_range(X, Y, q):
                 break
         else:
             X, Y, q = [0.0, 1.0, 2.0], [0.0, 1.0, 0.0], ["inf", 0.0]
@@ -919,10 +949,12 @@ class P(Prop):
             if cont == "list":
                 return ["C20.seg " + " ".join(fbits(v) for v in list(case["s"]) + list(case["q"]))]
             return ["C20.segg " + np_ + " " + " ".join(fbits(v) for v in list(case["s"]) + list(case["q"]))]
-        if k == "poly" and cont == "list":
+        # `(x - xproj) ** 2` after the loop: a numpy scalar (numpy container or numpy query) never raises, a Python float does on overflow
+        npq = "1" if (cont in NP_CONT or case.get("qform", "float") == "np") else "0"
+        if k == "poly" and cont == "list" and npq == "0":
             return ["C20.poly %s %s %s %s" % (fl(case["X"]), fl(case["Y"]), fbits(case["q"][0]), fbits(case["q"][1]))]
         if k in ("poly", "polyxy"):
-            return ["C20.polyxy %s %s %s %s %s" % (np_, fl(case["X"]), fl(case["Y"]), fbits(case["q"][0]), fbits(case["q"][1]))]
+            return ["C20.polyxy %s %s %s %s %s %s" % (np_, npq, fl(case["X"]), fl(case["Y"]), fbits(case["q"][0]), fbits(case["q"][1]))]
         if k in ("map", "proj"):
             if "Z" not in case:
                 return ["C20.map %s %s %s %s" % (fl(case["X"]), fl(case["Y"]), fbits(case["q"][0]), fbits(case["q"][1]))]
@@ -952,7 +984,7 @@ class P(Prop):
             return ["C20.mapf %s %s %s %s %s %s %s" % (names, cols, fl([q[0] for q in Q0]), fl([q[1] for q in Q0]), fl([q[2] for q in Q0]),
                                                        fl(times), refs)]
 
-    ERR = {"zerodiv": "err:zerodiv", "unbound": "err:UnboundLocalError", "index": "err:index", "af": "err:AnalyticalFeatureError"}
+    ERR = {"zerodiv": "err:zerodiv", "index": "err:index", "overflow": "err:OverflowError", "af": "err:AnalyticalFeatureError"}
 
     def decode_mapf(self, case, replies):
         r = replies[0].split()
@@ -1106,10 +1138,10 @@ class P(Prop):
             return False        # every distance is outside the double range: no nearest point to return
         if case["kind"] == "seg":
             return not degenerate(segments(*self.poly_of(case))[0])
-        # a polyline all of whose segments are shorter than 1e-16 (the threshold under which proj_polyligne skips a
-        # segment as zero-length) is a single point as far as the property is concerned
-        return all(any(abs(float(X[j]) - float(X[j + 1])) + abs(float(Y[j]) - float(Y[j + 1])) >= 1e-16 for j in range(len(X) - 1))
-                   for (X, Y, _, _) in self.queries_of(case))
+        # a polyline of >= 2 vertices all of whose segments are shorter than 1e-16 (the threshold under which proj_polyligne
+        # skips a segment as zero-length) is a polyline with zero-length segments: in the domain (its nearest point is the
+        # point it is). A single vertex is not a polyline.
+        return all(len(X) >= 2 for (X, Y, _, _) in self.queries_of(case))
 
     # -- the oracle on chained calls on track objects: every call is judged on the queries it was GIVEN (read from the track
     #    of queries just before the call) and on the reference polyline of that call
@@ -1118,8 +1150,8 @@ class P(Prop):
         return any(abs(float(X[j]) - float(X[j + 1])) + abs(float(Y[j]) - float(Y[j + 1])) >= 1e-16 for j in range(len(X) - 1))
 
     def mapf_unconstrained(self, X, Y, Q):
-        """the property says nothing about this call: no query, a single-point reference, or distances outside the double range"""
-        return (not Q) or (not self.live_polyline(X, Y)) or any(out_of_range(X, Y, q[:2]) for q in Q)
+        """the property says nothing about this call: no query, a reference with fewer than two positions, or distances outside the double range"""
+        return (not Q) or len(X) < 2 or any(out_of_range(X, Y, q[:2]) for q in Q)
 
     def mapf_err_class(self, case, out):
         """class of the exception that stopped the chain: "outside" (the property does not constrain that call), the listed
@@ -1220,7 +1252,7 @@ class P(Prop):
             return None         # all distances inf / NaN (non-finite or overflowing coordinates): nothing to constrain, whatever is returned or raised
         if not self.in_domain(case):
             if "err" in out or case["kind"] == "polyxy":
-                return None     # zero-length segment / single-point polyline / malformed sequences: outside the property's domain
+                return None     # proj_segment on a zero-length segment / single-vertex polyline / malformed sequences: outside the property's domain
         if "err" in out:
             return "raised %s" % out["err"]
         k = case["kind"]
@@ -1550,16 +1582,13 @@ P.theorems = P.theorems + [
     ("TracklibVerif.Tie.C20", "TV.Tie.C20.tie_proj_segment", "the translation of the CURRENT source of geometry.proj_segment equals the model's projSegment on all arguments, exceptions included"),
 ]
 P.theorems = P.theorems + [
-    ("TracklibVerif.Tie.C20", "TV.Tie.C20.tie_proj_polyligne", "the translation of the CURRENT source of geometry.proj_polyligne (for loop, sentinel 1e400 = inf, continue, possibly-unbound result) equals the model's projPolyligneXY (np=false, eps=1e-16) on all arguments whose kept distances are < inf, exceptions included (IndexError, ZeroDivisionError, UnboundLocalError)"),
-    ("TracklibVerif.Tie.C20", "TV.Tie.C20.tie_proj_polyligne_pairs", "the translated proj_polyligne on the abscissas/ordinates of a vertex list equals the kernel model projPolyligne on the vertices (same sentinel hypothesis), exceptions included"),
-    ("TracklibVerif.Tie.C20", "TV.Tie.C20.proj_polyligne_sentinel_deviation", "the sentinel hypothesis cannot be dropped: on one kept segment whose distance is not < inf the code raises UnboundLocalError while the model returns the segment"),
-]
-P.theorems = P.theorems + [
-    ("TracklibVerif.Tie.C20", "TV.Tie.C20.tie_proj_polyligne_exact", "EXACT (model correction): the translation of the CURRENT source of geometry.proj_polyligne equals the sentinel-faithful model projPolyligneXYS (np=false, same sentinel inf, eps=1e-16) on ALL arguments, no sentinel hypothesis, exceptions included (IndexError, ZeroDivisionError, UnboundLocalError also when every distance is inf/NaN)"),
+    ("TracklibVerif.Tie.C20", "TV.Tie.C20.tie_proj_polyligne_exact", "EXACT: the translation of the CURRENT source of geometry.proj_polyligne (initial answer Xp[0], Yp[0], 0; for loop; sentinel 1e400 = inf; continue; `if distmin == inf: distmin = sqrt(pow(x - xproj, 2) + pow(y - yproj, 2))`) equals the sentinel-faithful model projPolyligneXYS (np=false, same sentinel inf, sq v = pow v 2, eps=1e-16) on ALL arguments, no hypothesis, exceptions included (IndexError on empty / shorter sequences, ZeroDivisionError)"),
     ("TracklibVerif.Tie.C20", "TV.Tie.C20.tie_proj_polyligne_pairs_exact", "EXACT: the translated proj_polyligne on the abscissas/ordinates of a vertex list equals the sentinel-faithful kernel model projPolyligneS on ALL arguments, no hypothesis"),
-    ("TracklibVerif.Tie.C20", "TV.Tie.C20.tie_proj_polyligne_from_exact", "tie_proj_polyligne is a corollary of the exact tie and the agreement lemma: the sentinel hypothesis only passes from the sentinel-faithful model to the none-state model"),
-    ("TracklibVerif.Lemmas.ProjSentinel", "TV.Proj.projPolyligneXYS_eq", "agreement: if every distance met (non-skipped segment, proj_segment returns) is < inf, the sentinel-faithful projPolyligneXYS equals projPolyligneXY (any argument form), exceptions included"),
-    ("TracklibVerif.Lemmas.ProjSentinel", "TV.Proj.projPolyligneXYS_eq_false", "the same with Python numbers, hypothesis stated on the kernel projSegment (literally hinf of tie_proj_polyligne)"),
-    ("TracklibVerif.Lemmas.ProjSentinel", "TV.Proj.projPolyligneS_eq", "agreement on a vertex list: projPolyligneS = projPolyligne under the same hypothesis"),
-    ("TracklibVerif.Lemmas.ProjSentinel", "TV.Proj.projPolyligneXYS_single_not_lt", "the hypothesis separates the two forms: one kept segment with a distance not < inf -> the S-form raises UnboundLocalError (as the code), the none-state form returns the segment"),
+    ("TracklibVerif.Tie.C20", "TV.Tie.C20.tie_proj_polyligne", "the translated proj_polyligne equals the none-state model projPolyligneXY of the property theorems (np=false, eps=1e-16), exceptions included, under the explicit hypotheses that separate the two renderings of the sentinel: kept distances < inf, d < inf -> not d == inf, inf == inf, pow v 2 = v * v (corollary of the exact tie and the agreement lemma)"),
+    ("TracklibVerif.Tie.C20", "TV.Tie.C20.tie_proj_polyligne_pairs", "the same on the abscissas/ordinates of a vertex list: the kernel model projPolyligne on the vertices"),
+    ("TracklibVerif.Tie.C20", "TV.Tie.C20.proj_polyligne_sentinel_deviation", "the sentinel hypothesis cannot be dropped: on one kept segment whose distance is not < inf the code keeps nothing and answers from its initial state (the first vertex, finishS) while the none-state model returns the segment"),
+    ("TracklibVerif.Lemmas.ProjSentinel", "TV.Proj.projPolyligneXYS_eq", "agreement: if every distance met (non-skipped segment, proj_segment returns) is < inf, d < inf -> not d == inf, inf == inf and sq v = v * v, the sentinel-faithful projPolyligneXYS equals projPolyligneXY (any argument form), exceptions included"),
+    ("TracklibVerif.Lemmas.ProjSentinel", "TV.Proj.projPolyligneXYS_eq_false", "the same with Python numbers, the sentinel hypothesis stated on the kernel projSegment (literally hinf of tie_proj_polyligne)"),
+    ("TracklibVerif.Lemmas.ProjSentinel", "TV.Proj.projPolyligneS_eq", "agreement on a vertex list: projPolyligneS = projPolyligne under the same hypotheses"),
+    ("TracklibVerif.Lemmas.ProjSentinel", "TV.Proj.projPolyligneXYS_single_not_lt", "the hypothesis separates the two forms: one kept segment with a distance not < inf -> the S-form answers from the first vertex (finishS on the initial state, as the code), the none-state form returns the segment"),
 ]
